@@ -150,6 +150,10 @@ func pfmAckTable(c *Ctx, e *interp.Engine, rule string) {
 			}
 			atoms := successAtoms(e, r)
 			ops := bankOps(atoms)
+			if extra := bankOps(r.May); len(extra) > 0 {
+				c.bad(rule+"/refund", fk, "", "a success return class merges paths of which only some make the bank call "+clip(e.T.String(extra[0]), 160))
+				continue
+			}
 			up := any(upstream, atoms)
 			anyTot := any("call:iface:apps/packet-forward-middleware/types.TransferKeeper.SetTotalEscrowForDenom(_, _, _)", atoms)
 			has := func(src string) bool { return any(pfmBK+src, atoms) }
